@@ -591,3 +591,19 @@ func verifAsInt64(a interface{}) (int64, bool) {
 	}
 	return 0, false
 }
+
+// ---------------------------------------------------------------- sort.Slice
+// The symbolic executor cannot run sort.Slice's reflection-based swapper; it runs verifSortSlice instead (the
+// insertion sort sort.Slice itself uses below 12 elements). Natively sort.Slice runs as it is.
+func verifSortSlice(x interface{}, less func(i, j int) bool) {
+	n := verifSliceLen(x)
+	for i := 1; i < n; i++ {
+		for j := i; j > 0 && less(j, j-1); j-- {
+			verifSliceSwap(x, j, j-1)
+		}
+	}
+}
+
+func verifSliceLen(x interface{}) int { return reflect.ValueOf(x).Len() }
+
+func verifSliceSwap(x interface{}, i, j int) { reflect.Swapper(x)(i, j) }
